@@ -3,6 +3,7 @@ package sqlmodel
 import (
 	"encoding/binary"
 	"fmt"
+	"strconv"
 
 	"github.com/XiaoMi/Gaea/mysql"
 )
@@ -225,8 +226,8 @@ func readLenEnc(b []byte) (uint64, int, error) {
 func parseText(k Kind, s string) (Value, error) {
 	switch k {
 	case KInt:
-		var i int64
-		if _, err := fmt.Sscanf(s, "%d", &i); err != nil || fmt.Sprint(i) != s {
+		i, err := strconv.ParseInt(s, 10, 64)
+		if err != nil {
 			// a merged integer column may have been turned into a decimal text
 			d, derr := ParseDec(s)
 			if derr != nil {
@@ -238,8 +239,8 @@ func parseText(k Kind, s string) (Value, error) {
 	case KDec:
 		return ParseDec(s)
 	case KDouble:
-		var f float64
-		if _, err := fmt.Sscanf(s, "%g", &f); err != nil {
+		f, err := strconv.ParseFloat(s, 64)
+		if err != nil {
 			return Value{}, fmt.Errorf("double column holds %q", s)
 		}
 		return Double(f), nil
